@@ -21,3 +21,56 @@ Print Assumptions C02_abort_leaves_no_trace.
 Example C02_nonvacuous :
   d_root (fst (run (init_db 2) [OBegin [0%nat]; OInsert 0 (mkP [97] 1 [] [] [] []); OAbort])) = d_root (init_db 2).
 Proof. reflexivity. Qed.
+
+(* ==== interleaved part: all schedules of the commit protocol (DB/Model.v; DB/Visibility.v, DB/Reach.v) =====
+   `reach ntab actors sched = DB.Model.run (init_st ntab actors) sched` for ANY schedule of ANY well-formed
+   system of concurrent write transactions / table registrations; table contents are abstracted to the set of
+   ids of the transactions whose writes they contain (tv_ids). The DB names are kept inside a module because
+   DB/Model.v and Table/Model.v both define `run` and `step`. *)
+From SV Require DB.Model DB.Invariants DB.Visibility DB.Reach.
+Module C02_DB.
+Import SV.DB.Model SV.DB.Invariants SV.DB.Visibility SV.DB.Reach.
+Local Open Scope nat_scope.
+
+(* exact visibility: the id of transaction i is in the committed entry of table t iff i writes t and has
+   executed its root store (`committed`: pc at or past PRootStored, committing) *)
+Theorem C02_visible_iff : forall ntab actors sched i a t v, wf_system ntab actors ->
+  let s := reach ntab actors sched in
+  nth_error (s_actors s) i = Some a -> nth_error (s_root s) t = Some v ->
+  (In (a_id a) (tv_ids v) <-> committed a = true /\ In t (writes_of a)).
+Proof. exact visible_iff_reachable. Qed.
+Print Assumptions C02_visible_iff.
+
+(* ATOMIC VISIBILITY under every interleaving: in every reachable state either all tables written by a
+   transaction show its id in the committed root, or no table at all does *)
+Theorem C02_atomic_visibility_interleaved : forall ntab actors sched i a, wf_system ntab actors ->
+  let s := reach ntab actors sched in
+  nth_error (s_actors s) i = Some a ->
+  (forall t, In t (writes_of a) -> exists v, nth_error (s_root s) t = Some v /\ In (a_id a) (tv_ids v)) \/
+  (forall t v, nth_error (s_root s) t = Some v -> ~ In (a_id a) (tv_ids v)).
+Proof. exact atomic_visibility_reachable. Qed.
+Print Assumptions C02_atomic_visibility_interleaved.
+
+(* ABORT LEAVES NO TRACE under every interleaving: no step of an aborting writer changes the committed root
+   or closes a channel, and its id is in no entry of any reachable root *)
+Theorem C02_abort_leaves_no_trace_interleaved : forall ntab actors sched i a, wf_system ntab actors ->
+  let s := reach ntab actors sched in
+  nth_error (s_actors s) i = Some a -> commits a = false ->
+  s_closed (step s i) = s_closed s /\
+  (a_kind a <> KRegistrar -> s_root (step s i) = s_root s) /\
+  (forall t v, nth_error (s_root s) t = Some v -> ~ In (a_id a) (tv_ids v)).
+Proof. exact abort_no_trace_reachable. Qed.
+Print Assumptions C02_abort_leaves_no_trace_interleaved.
+
+Example C02_nonvacuous_interleaved :
+  let acts := [(1%N, KWriter [0; 1] [0; 1] true [] []); (2%N, KWriter [0] [0] false [] [])] in
+  wf_system 2 acts /\
+  map tv_ids (s_root (reach 2 acts (repeat 0 9))) = [[]; []] /\
+  map tv_ids (s_root (reach 2 acts (repeat 0 10))) = [[1%N]; [1%N]].
+Proof.
+  split; [split|].
+  - intros ik [<-|[<-|[]]]; cbn; repeat split; try (intros x Hx; cbn in Hx; intuition (subst; cbn; auto)).
+  - cbn. repeat constructor; cbn; intuition discriminate.
+  - vm_compute. split; reflexivity.
+Qed.
+End C02_DB.
